@@ -118,8 +118,30 @@ func MutateReport(t *rapid.T, cfg *telemetry.UploadConfig, r *telemetry.Report) 
 		p.Version = notIn(VersionPool, pc.Versions, "badVersion")
 	case "goversion":
 		p.GoVersion = notIn(GoVersPool, cfg.GoVersion, "badGoVersion")
+		if len(cfg.GoVersion) > 0 && rapid.Bool().Draw(t, "nearMissGoVersion") {
+			// a listed version with something appended, as a toolchain built with experiments or locally would report it
+			v := rapid.SampledFrom(cfg.GoVersion).Draw(t, "listedGoVersion") +
+				rapid.SampledFrom([]string{" X:rangefunc", " X:loopvar,aliastypeparams", "-devel", " ", "+dirty", ".0", "rc1", "\n", " go1.22.1"}).Draw(t, "goVersionSuffix")
+			listed := false
+			for _, l := range cfg.GoVersion {
+				listed = listed || l == v
+			}
+			if !listed {
+				p.GoVersion = v
+			}
+		}
 	case "goos":
 		p.GOOS = notIn(GOOSPool, cfg.GOOS, "badGOOS")
+		if len(cfg.GOOS) > 0 && rapid.IntRange(0, 2).Draw(t, "nearMissGOOS") == 0 {
+			v := rapid.SampledFrom(cfg.GOOS).Draw(t, "listedGOOS") + rapid.SampledFrom([]string{" ", "/arm", "2", "-gnu"}).Draw(t, "goosSuffix")
+			listed := false
+			for _, l := range cfg.GOOS {
+				listed = listed || l == v
+			}
+			if !listed {
+				p.GOOS = v
+			}
+		}
 	case "goarch":
 		p.GOARCH = notIn(GOARCHPool, cfg.GOARCH, "badGOARCH")
 	case "platform-empty":
